@@ -1061,6 +1061,7 @@ class NetworkXGraphImporter(ABCGraphImporter):
     def cast_graph(self, *, graph_id: str) -> ABCPropertyGraph:
 
         assert graph_id is not None
-        neo4jg = NetworkXPropertyGraph(graph_id=graph_id, importer=self, logger=self.log)
+        # (the graph class that goes with this importer's store)
+        neo4jg = self.graph_class(graph_id=graph_id, importer=self, logger=self.log)
         assert neo4jg.graph_exists()
         return neo4jg
